@@ -598,6 +598,27 @@ func (h *c17Hist) apiTwin(w *c17Route) bool {
 	return w.src == c17Local && w.vrf != "" && w.rel != "" && len(h.apiRel[w.rel]) > 1
 }
 
+// indexClass folds the reasons of one root cause into one stable key part: gobgp answers a change of a specific
+// (non-default) membership from its RT index of VPN paths, and that index is kept differently for sources with and
+// without ADD-PATH ("every path" vs "best path only"). Every difference at an rtc neighbour that is attributed to
+// one of its own specific-membership events, on an NLRI some source announced with a path id, belongs here.
+func (h *c17Hist) indexClass(p *c17Peer, k simRouteKey, bl string) string {
+	if p.role != c17RTC || !h.apKeys[c17KeyScope(k.Family, k.Prefix)] {
+		return bl
+	}
+	kind := bl
+	for _, pre := range []string{"non-best-path:", "ghost-version:", "not-in-vpn-index:", "sent-on-", "withdrawn-on-", "after-"} {
+		kind = strings.TrimPrefix(kind, pre)
+	}
+	if !strings.HasPrefix(kind, "membership-") {
+		return bl
+	}
+	if strings.HasPrefix(kind, "membership-announce") && !strings.Contains(kind, "rejected") {
+		return "vpn-index-addpath-nlri:on-membership-announce"
+	}
+	return "vpn-index-addpath-nlri:on-membership-withdraw"
+}
+
 // versionClass qualifies a version gobgp announced when it was not due: one that no source announced any more at
 // that time (ghost), or one that is in the Loc-RIB but not the best path of its destination.
 func (h *c17Hist) versionClass(tag uint32, sentEv int, best map[string]*c17Route) string {
@@ -740,6 +761,7 @@ func (h *c17Hist) comparePeer(p *c17Peer, best map[string]*c17Route, at string) 
 				bl = h.versionClass(tag, msgEv, best) + bl
 			}
 			diffs = append(diffs, fmt.Sprintf("STALE %s tag %d (%s) [%s]", k, tag, why, bl))
+			bl = h.indexClass(p, k, bl)
 			if sfx(k) != "" {
 				set(staleName+sfx(k), 4)
 			} else {
@@ -757,6 +779,7 @@ func (h *c17Hist) comparePeer(p *c17Peer, best map[string]*c17Route, at string) 
 				bl = h.versionClass(tag, msgEv, best) + bl
 			}
 			diffs = append(diffs, fmt.Sprintf("DIFFERENT %s peer holds version tag %d, should hold %v [%s]", k, tag, ws, bl))
+			bl = h.indexClass(p, k, bl)
 			if sfx(k) != "" {
 				set("different-version"+sfx(k), 6)
 			} else {
@@ -780,6 +803,7 @@ func (h *c17Hist) comparePeer(p *c17Peer, best map[string]*c17Route, at string) 
 				bl = "not-in-vpn-index:" + bl
 			}
 			diffs = append(diffs, fmt.Sprintf("MISSING %s %v [%s]", k, ws, bl))
+			bl = h.indexClass(p, k, bl)
 			if sfx(k) != "" {
 				set(missName+sfx(k), 5)
 			} else {
@@ -836,7 +860,7 @@ func c17History(t *testing.T, rec *vlib.Rec, idx int) {
 	}()
 	h := &c17Hist{t: t, rec: rec, idx: idx, r: r, n: n, m: c17NewModel(), apiUUID: map[c17PathKey]uuid.UUID{}, apiVrf: map[c17PathKey]*apiutil.Path{},
 		events: map[string]int{}, last: map[string]c17Ev{}, keyRTs: map[string]map[string]bool{}, rxMark: map[string][]int{},
-		since: map[string]map[simRouteKey]c17Since{}, gone: map[string]map[simRouteKey]c17Gone{}, tagKey: map[uint32]c17PathKey{}, tagDied: map[uint32]int{}, apiRel: map[string]map[string]bool{}}
+		since: map[string]map[simRouteKey]c17Since{}, gone: map[string]map[simRouteKey]c17Gone{}, tagKey: map[uint32]c17PathKey{}, tagDied: map[uint32]int{}, apiRel: map[string]map[string]bool{}, apKeys: map[string]bool{}}
 	defer func() { // what was exercised is recorded also when the history ends at a violation
 		for k, v := range h.events {
 			rec.Count("ev_"+k, v)
